@@ -134,26 +134,37 @@ static void gen_input(void) {
 }
 
 /* ---------- names of the synchronisation objects ---------- */
+/* zstd's debug threading layer (DEBUGLEVEL >= 1, common/threading.h) allocates every mutex and condition: the object handed to
+ * pthread_* is *field, not &field */
+#if defined(DEBUGLEVEL) && (DEBUGLEVEL >= 1)
+#define OBJ(field) ((void*)(field))
+#define MUX(field) (field)
+#else
+#define OBJ(field) ((void*)&(field))
+#define MUX(field) (&(field))
+#endif
 static ZSTDMT_CCtx* MT(void) { return g_cctx ? g_cctx->mtctx : NULL; }
+static int g_after_end;
 static const char* name_of(const void* o, char* buf) {
     ZSTDMT_CCtx* m = MT(); unsigned k;
     if (o == NULL) return "-";
+    if (g_after_end > 1) return "?";   /* the context is being torn down */
     if (m) {
         if (m->jobs) for (k = 0; k <= m->jobIDMask; k++) {
-            if (o == (void*)&m->jobs[k].job_mutex) { sprintf(buf, "J%u", k); return buf; }
-            if (o == (void*)&m->jobs[k].job_cond) { sprintf(buf, "j%u", k); return buf; }
+            if (o == OBJ(m->jobs[k].job_mutex)) { sprintf(buf, "J%u", k); return buf; }
+            if (o == OBJ(m->jobs[k].job_cond)) { sprintf(buf, "j%u", k); return buf; }
         }
-        if (o == (void*)&m->serial.mutex) return "S";
-        if (o == (void*)&m->serial.cond) return "s";
-        if (o == (void*)&m->serial.ldmWindowMutex) return "L";
-        if (o == (void*)&m->serial.ldmWindowCond) return "l";
-        if (m->bufPool && o == (void*)&m->bufPool->poolMutex) return "B";
-        if (m->cctxPool && o == (void*)&m->cctxPool->poolMutex) return "C";
-        if (m->seqPool && o == (void*)&m->seqPool->poolMutex) return "Q";
+        if (o == OBJ(m->serial.mutex)) return "S";
+        if (o == OBJ(m->serial.cond)) return "s";
+        if (o == OBJ(m->serial.ldmWindowMutex)) return "L";
+        if (o == OBJ(m->serial.ldmWindowCond)) return "l";
+        if (m->bufPool && o == OBJ(m->bufPool->poolMutex)) return "B";
+        if (m->cctxPool && o == OBJ(m->cctxPool->poolMutex)) return "C";
+        if (m->seqPool && o == OBJ(m->seqPool->poolMutex)) return "Q";
         if (m->factory) {
-            if (o == (void*)&m->factory->queueMutex) return "P";
-            if (o == (void*)&m->factory->queuePushCond) return "u";
-            if (o == (void*)&m->factory->queuePopCond) return "p";
+            if (o == OBJ(m->factory->queueMutex)) return "P";
+            if (o == OBJ(m->factory->queuePushCond)) return "u";
+            if (o == OBJ(m->factory->queuePopCond)) return "p";
         }
     }
     return "?";
@@ -191,8 +202,11 @@ static void print_win(ZSTD_window_t w) {
     printf("%ld:%ld:%ld:%ld", es > 0 ? off_of(e0) : 0, es > 0 ? es : 0, ps > 0 ? off_of(p0) : 0, ps > 0 ? ps : 0);
 }
 
+static int g_after_end;   /* scheduler steps printed since the program ended (MARK end): the first one closes the caller's last section, the
+                           * later ones belong to ZSTD_freeCCtx, which destroys the objects print_state() would look at */
 static void print_state(void) {
     ZSTDMT_CCtx* m = MT(); int t, nt = zv_nthreads(); unsigned k;
+    if (g_after_end > 2) { printf("nomt"); return; }
     if (!m || !m->jobs || !m->factory || !m->bufPool || !m->cctxPool || !m->seqPool) { printf("nomt"); return; }
     printf("mt %u %u %d %u %u %zu %zu %ld %zu %ld %zu %zu %zu %d %d %d",
            m->doneJobID, m->nextJobID, m->jobReady, m->frameEnded, m->allJobsCompleted, m->roundBuff.pos, m->roundBuff.capacity,
@@ -216,9 +230,9 @@ static void print_state(void) {
 #endif
     }
     printf(" | own");
-    for (k = 0; k <= m->jobIDMask; k++) printf(" %d", owner_of(&m->jobs[k].job_mutex));
-    printf(" ; %d %d %d %d %d %d", owner_of(&m->serial.mutex), owner_of(&m->serial.ldmWindowMutex), owner_of(&m->bufPool->poolMutex),
-           owner_of(&m->cctxPool->poolMutex), owner_of(&m->seqPool->poolMutex), owner_of(&m->factory->queueMutex));
+    for (k = 0; k <= m->jobIDMask; k++) printf(" %d", owner_of(MUX(m->jobs[k].job_mutex)));
+    printf(" ; %d %d %d %d %d %d", owner_of(MUX(m->serial.mutex)), owner_of(MUX(m->serial.ldmWindowMutex)), owner_of(MUX(m->bufPool->poolMutex)),
+           owner_of(MUX(m->cctxPool->poolMutex)), owner_of(MUX(m->seqPool->poolMutex)), owner_of(MUX(m->factory->queueMutex)));
     printf(" | th");
     for (t = 0; t < nt; t++) { char kd, nm[16]; stand(t, &kd, nm); printf(" %c%s", kd, nm); }
     printf(" | fl %lu %llu %ld:%ld:%ld", g_nflush, g_flushed_total, g_last_fl[0], g_last_fl[1], g_last_fl[2]);
@@ -270,14 +284,14 @@ static void range_oracle(void) {
     /* every posted or prepared job reads its source from inside the round buffer; a job that has not been through its serial section
      * yet does not lie inside the LDM window (the window only covers data of jobs already processed: otherwise window data was overwritten) */
     {   unsigned const last = m->nextJobID + (m->jobReady ? 1 : 0); unsigned a;
-        int const ldm_ok = m->params.ldmParams.enableLdm == ZSTD_ps_enable && owner_of(&m->serial.ldmWindowMutex) < 0 && owner_of(&m->serial.mutex) < 0;
+        int const ldm_ok = m->params.ldmParams.enableLdm == ZSTD_ps_enable && owner_of(MUX(m->serial.ldmWindowMutex)) < 0 && owner_of(MUX(m->serial.mutex)) < 0;
         if (m->roundBuff.buffer && last - m->doneJobID <= m->jobIDMask + 1)
         for (a = m->doneJobID; a < last; a++) {
             ZSTDMT_jobDescription* ja = &m->jobs[a & m->jobIDMask];
             const BYTE* a0 = (const BYTE*)ja->src.start; const BYTE* a1 = a0 + ja->src.size;
             if (ja->jobID != a || ja->src.size == 0 || a0 == NULL) continue;
             if (a0 < m->roundBuff.buffer || a1 > m->roundBuff.buffer + m->roundBuff.capacity) { oracle("the source of a job is not inside the round buffer"); return; }
-            if (ldm_ok && a >= m->serial.nextJobID && owner_of(&ja->job_mutex) < 0) {
+            if (ldm_ok && a >= m->serial.nextJobID && owner_of(MUX(ja->job_mutex)) < 0) {
                 buffer_t b; b.start = (void*)a0; b.capacity = ja->src.size;
                 if (ZSTDMT_doesOverlapWindow(b, m->serial.ldmWindow)) { oracle("the source of a job that has not been through its serial section overlaps the LDM window"); return; }
             }
@@ -294,7 +308,7 @@ static void range_oracle(void) {
                 if ((s0 < b1 && b0 < s1) || (j->prefix.size && p0 < b1 && b0 < p1)) { oracle("input range handed to the caller overlaps the source/prefix of an unfinished job"); return; }
             }
         }
-        if (m->params.ldmParams.enableLdm == ZSTD_ps_enable && owner_of(&m->serial.ldmWindowMutex) < 0 && owner_of(&m->serial.mutex) < 0) {
+        if (m->params.ldmParams.enableLdm == ZSTD_ps_enable && owner_of(MUX(m->serial.ldmWindowMutex)) < 0 && owner_of(MUX(m->serial.mutex)) < 0) {
             buffer_t b; b.start = (void*)b0; b.capacity = m->targetSectionSize;
             /* the window only ever advances over posted jobs, never into the buffer the caller is filling */
             if (ZSTDMT_doesOverlapWindow(b, m->serial.ldmWindow)) { oracle("input range handed to the caller overlaps the LDM window"); }
@@ -313,7 +327,7 @@ static void lock_order(int tid, char kind, const char* nm) {
 
 static int g_queue_before = -1;
 static void on_step(int step, int tid, int w) {
-    int t, nt = zv_nthreads(); ZSTDMT_CCtx* m = MT();
+    int t, nt = zv_nthreads(); ZSTDMT_CCtx* m = g_after_end > 1 ? NULL : MT();   /* (nothing of the context is read during its teardown) */
     if (step < 0) printf("I ");
     else {
         char kd = prev_known[tid] ? prev_kind[tid] : '?'; const char* nm = prev_known[tid] ? prev_name[tid] : "?";
@@ -325,8 +339,9 @@ static void on_step(int step, int tid, int w) {
         }
     }
     flush_oracle(tid);
+    if (g_after_end) g_after_end++;
     print_state(); putchar('\n');
-    range_oracle();
+    if (g_after_end <= 2) range_oracle();
     for (t = 0; t < nt && t < MAXT; t++) { stand(t, &prev_kind[t], prev_name[t]); prev_known[t] = 1; }
     if (m && m->factory && m->jobs) { POOL_ctx* f = m->factory; g_queue_before = f->queueEmpty ? -1 : (int)((ZSTDMT_jobDescription*)f->queue[f->queueHead].opaque - m->jobs); }
 }
@@ -590,6 +605,9 @@ static void run_case(void) {
     printf("MARK begin\n");
     run_prog();
     printf("MARK end\n");
+#ifndef C11_REAL_PTHREADS
+    g_after_end = 1;
+#endif
     ZSTD_freeCCtx(g_cctx); g_cctx = NULL;
     if (g_pool) { ZSTD_freeThreadPool(g_pool); g_pool = NULL; }
 #ifndef C11_REAL_PTHREADS
